@@ -162,7 +162,9 @@ TABLE = {
   text=("For each scenario of the grid the stop sequence is run once to "
         "count kernel-call boundaries and then once per (boundary, victim, "
         "kind of death); random histories add non-start requests, checks and "
-        "deaths after completed stops. Survivors/zombies are read from the "
+        "deaths after completed stops; an on-demand family runs one on-demand "
+        "watcher on a real managed socket with client connections as socket "
+        "events. Survivors/zombies are read from the "
         "kernel table when the waiting reply is written; 'stopped stays "
         "stopped' is checked on the spawn log."),
   note=SIM_NOTE),
